@@ -671,16 +671,24 @@ class DiscreteFourierTransformInverse(DiscreteFourierTransformBase):
         effort = flags[0] if flags else 'measure'
 
         direction = 'forward' if self.sign == '-' else 'backward'
+        real_out = is_real_dtype(out.dtype) and not self.halfcomplex
+        if real_out:
+            # C2C transform into a complex temporary, keep the real part
+            fft_out = np.empty(out.shape, dtype=complex_dtype(out.dtype))
+        else:
+            fft_out = out
         self._fftw_plan = pyfftw_call(
-            x, out, direction=direction, axes=self.axes,
+            x, fft_out, direction=direction, axes=self.axes,
             halfcomplex=self.halfcomplex, planning_effort=effort,
             fftw_plan=self._fftw_plan, normalise_idft=True)
 
         # Need to normalize for 'forward', pyfftw before version 0.13
         # does not offer a way to do this.
         if self.sign == '-':
-            out /= np.prod(np.take(self.domain.shape, self.axes))
+            fft_out /= np.prod(np.take(self.domain.shape, self.axes))
 
+        if real_out:
+            out[:] = fft_out.real
         return out
 
     @property
